@@ -1,6 +1,6 @@
 (* Correspondence runner: evaluates the model on a history and compares it, observation by
    observation, with what the implementation did (as printed by the harness). *)
-From Settlus Require Import Base.Prelude Base.Hex Base.Dec Oracle.Arith Settlement.Model Oracle.Model Chain.Model.
+From Settlus Require Import Base.Prelude Base.Hex Base.Dec Oracle.Arith Settlement.Model Oracle.Model Chain.Model Genesis.Model.
 
 Record snap := mkSnap {
   sn_h : Z;
@@ -43,7 +43,10 @@ Inductive iobs :=
 
 (* cs_hashdiff: events (end-blocks) after which two independent executions of the same history on the
    implementation committed different app hashes *)
-Record case := mkCase { cs_init : cstate; cs_events : list event; cs_obs : list iobs; cs_hashdiff : list Z }.
+Record case := mkCase { cs_init : cstate; cs_events : list event; cs_obs : list iobs; cs_hashdiff : list Z;
+  (* export of the final state imported into a fresh application: result class, module state there,
+     and whether both modules export the same genesis again *)
+  cs_reimport : option (tclass * option snap * bool) }.
 
 Definition zz_eqb (a b : Z * Z) : bool := (fst a =? fst b) && (snd a =? snd b).
 Definition zb_eqb (a b : Z * bytes) : bool := (fst a =? fst b) && bytes_eqb (snd a) (snd b).
@@ -152,9 +155,35 @@ Fixpoint compare (k : Z) (c : cstate) (es : list event) (os : list iobs) : list 
 
 Definition mismatches (c : case) : list (Z * Z) := compare 0 (cs_init c) (cs_events c) (cs_obs c).
 
+(* the model's export / import against the implementation's, on the final state of the history *)
+Fixpoint final_state (c : cstate) (es : list event) : cstate :=
+  match es with
+  | [] => c
+  | e :: es' => let '(c1, _, _) := step c e in final_state c1 es'
+  end.
+
+Definition reimport_fields : list Z := [2; 3; 4; 6; 7; 8; 9; 10; 14].
+
+Definition cmp_reimport (c : case) : list (Z * Z) :=
+  match cs_reimport c with
+  | None => []
+  | Some (cls, sn, _) =>
+      let k := Z.of_nat (length (cs_events c)) in
+      match reimport (final_state (cs_init c) (cs_events c)), cls, sn with
+      | Ok c2, COk, Some sn' =>
+          map (fun f => (k, 30 + f)) (filter (fun f => memZ f reimport_fields) (cmp_snap c2 c2 sn'))
+      | Ok _, _, _ => [(k, 30)]
+      | _, COk, _ => [(k, 30)]
+      | _, _, _ => []
+      end
+  end.
+
+Definition mismatches_rt (c : case) : list (Z * Z) :=
+  match mismatches c with [] => cmp_reimport c | l => l end.
+
 Definition all_mismatches (cs : list case) : list (Z * list (Z * Z)) :=
   filter (fun x : Z * list (Z * Z) => match snd x with [] => false | _ => true end)
-         (combine (map Z.of_nat (seq 0 (length cs))) (map mismatches cs)).
+         (combine (map Z.of_nat (seq 0 (length cs))) (map mismatches_rt cs)).
 
 (* debugging helpers *)
 Fixpoint state_after (c : cstate) (es : list event) (k : nat) : cstate :=
